@@ -134,6 +134,9 @@ func (e *Env) Operand(epoch int, tok string, strict bool) int {
 	if n, err := strconv.ParseInt(tok, 0, 64); err == nil {
 		return int(n)
 	}
+	if n, ok := evalArith(tok); ok {
+		return n
+	}
 	switch tok {
 	case "TRUE": // the decomp's constants
 		return 1
@@ -146,6 +149,78 @@ func (e *Env) Operand(epoch int, tok string, strict bool) int {
 		d = 2
 	}
 	return int(rng.H(e.Seed, 0xc0457, rng.HashStr("const:"+tok)) % uint64(d))
+}
+
+// evalArith is the assembler's reading of an operand made of integer literals and + - *
+// and parentheses ('*' binds tighter, both associate to the left). ok is false for anything else.
+func evalArith(tok string) (int, bool) {
+	if !strings.ContainsAny(tok, "+-*") {
+		return 0, false
+	}
+	i := 0
+	var expr func() (int, bool)
+	factor := func() (int, bool) {
+		neg := false
+		for i < len(tok) && tok[i] == '-' {
+			neg = !neg
+			i++
+		}
+		if i < len(tok) && tok[i] == '(' { // value(a + b) is emitted as "( a + b )"
+			i++
+			v, ok := expr()
+			if !ok || i >= len(tok) || tok[i] != ')' {
+				return 0, false
+			}
+			i++
+			if neg {
+				v = -v
+			}
+			return v, true
+		}
+		j := i
+		for j < len(tok) && wordByte(tok[j]) {
+			j++
+		}
+		n, err := strconv.ParseInt(tok[i:j], 0, 64)
+		if err != nil {
+			return 0, false
+		}
+		i = j
+		if neg {
+			n = -n
+		}
+		return int(n), true
+	}
+	term := func() (int, bool) {
+		v, ok := factor()
+		for ok && i < len(tok) && tok[i] == '*' {
+			i++
+			var w int
+			w, ok = factor()
+			v *= w
+		}
+		return v, ok
+	}
+	expr = func() (int, bool) {
+		v, ok := term()
+		for ok && i < len(tok) && (tok[i] == '+' || tok[i] == '-') {
+			op := tok[i]
+			i++
+			var w int
+			w, ok = term()
+			if op == '+' {
+				v += w
+			} else {
+				v -= w
+			}
+		}
+		return v, ok
+	}
+	v, ok := expr()
+	if !ok || i != len(tok) {
+		return 0, false
+	}
+	return v, true
 }
 
 // Cmp returns 0 (less), 1 (equal), 2 (greater) like the engine's comparisonResult.
